@@ -171,6 +171,7 @@ PickCase(c) ==
   \/ \E b \in 1..(IF Thorough THEN 5 ELSE 4), mut \in 0..17 : (Thorough \/ b \in {1, 3} \/ (b = 2 /\ mut \in {0, 5, 9, 10, 13}) \/ (b = 4 /\ mut \in {0, 2, 6, 13, 15})) /\ c = << "verify", b, mut >>
   \/ \E bit \in 0..(IF Thorough THEN 791 ELSE 535) : c = << "flip", bit >>
   \/ \E n \in {2, 3}, mut \in 0..6 : c = << "forge", n, mut >>
+  \/ \E n \in 1..3 : \E mask \in 1..(2 ^ n - 1) : \E m \in MaskSet(n, mask) : c = << "infring", n, mask, m >>
 
 ExpandInit(n, matched, nuse, mi, sd, al) ==
   LET base == [ tags |-> TagList(n, matched), out |-> OutTag, nuse |-> nuse, maxiter |-> mi, seed |-> SeedOf(sd) ] IN
@@ -253,6 +254,23 @@ ExpandForge(n, mut) ==
        \* empty selection whose e0 is the hash the degenerate (zero-member) ring would need: computable from public data
        [] mut = 6 -> SV(SjSerialize(n, Zeros(SjBitmapLen(n)), Sha256Hash(SjMsg(pts, OutPt))), gens, gout)
 
+\* A SELECTED input equal to the output makes its ring key the point at infinity, whose discrete logarithm (0) everybody
+\* knows: e * infinity contributes nothing, so R at that ring position is s G whatever the challenge, and everything AFTER it
+\* no longer depends on e0.  Forgery from public data: arbitrary small non-zero s values, walk the ring forward from the
+\* infinity key, e0 = SHA256(ser33(R_last) || msg).  Works with the infinity key at ANY ring position (last: e0 =
+\* SHA256(ser33(s_last G) || msg) directly).  Verification must reject (a selected input equals the output).
+\* used = selected inputs (set), m = the selected input (0-based) that is replaced by the output tag.
+ExpandInfRing(n, used, m) ==
+  LET pts  == [InPts(n) EXCEPT ![m + 1] = OutPt]
+      bm   == SjBitmapOf(n, used)  useq == SjUsed(n, bm)  k == Len(useq)
+      pos  == SjPos(useq, m)                                   \* 0-based ring position of the infinity key
+      keys == SjRingKeys(pts, OutPt, useq)
+      msg  == SjMsg(pts, OutPt)
+      ss   == [i \in 1..k |-> FromNat(40 + i)]
+      f    == SignFwd(msg, 0, keys, ss, 0, k, pos + 1, Ser33(PMulG(ss[pos + 1])))
+      e0   == Sha256Hash(f[2] \o msg)
+  IN  SV(SjSerialize(n, bm, e0 \o Flatten([i \in 1..k |-> Scalar32(ss[i])])), GenBytes(pts), SjSerGen(OutPt))
+
 \* the proof whose every bit is flipped: constants (evaluated once per TLC run, not once per flip)
 FlipBase == IF Thorough THEN << 2, {0, 1}, 1 >> ELSE << 2, {1}, 1 >>
 FlipProof == HonestProof(FlipBase[1], FlipBase[2], FlipBase[3])
@@ -270,6 +288,7 @@ Expand(c) ==
     [] c[1] = "verify" -> ExpandVerify(c[2], c[3])
     [] c[1] = "flip" -> SV(FlipBit(FlipProof, c[2]), FlipGens, SjSerGen(OutPt))
     [] c[1] = "forge" -> ExpandForge(c[2], c[3])
+    [] c[1] = "infring" -> ExpandInfRing(c[2], MaskSet(c[2], c[3]), c[4])
 
 -----------------------------------------------------------------------------
 VARIABLES phase, cur, rec
